@@ -55,3 +55,79 @@ Example C09_example :
               vknown := false; vhwm := 3; vreq := 3 |} in
   match srun (newline 0) v with ADone off v' => off = 1 /\ vreq v' = 4 | _ => False end.
 Proof. vm_compute. split; reflexivity. Qed.
+
+(* ------------------------------------------------------------------ *)
+(* The DIMACS family, per item (Look.v, LookProofs.v): every admissible run of Parser::new and of next_clause, from
+   every state satisfying the parsers' invariant K.
+     Lk v v'      whatever the run newly asked for lies within the line of the final cursor (up to its LF, or the one
+                  request that discovers the end of the input) — for every outcome, errors included
+     ItemLk v v'  the cursor sits just behind an LF (CR LF: both bytes consumed) and nothing beyond the cursor was asked
+                  for: vreq v' <= max (vreq v) (vcur v'); or the input ended and only the request that found the end
+                  went beyond.  TryLoad8 (the "already buffered?" fast-path question) never counts as a request. *)
+From Flussab Require Import Simulation Cnf CnfProofs Hoare CnfSafe Look LookProofs.
+
+Theorem C09_header_lookahead : forall fuel k maxd ignore_header lr v r,
+  K fuel lr v -> aruns (parser_new fuel k maxd ignore_header lr) v r ->
+  exists res lr' v', r = ADone (res, lr') v' /\ vS v' = vS v /\ vcur v <= vcur v' /\ Lk v v' /\
+    match res with
+    | Ok st => K fuel lr' v' /\ (phdr st <> None -> ItemLk v v')
+    | Err _ => True
+    end.
+Proof. exact parser_new_lookahead. Qed.
+Print Assumptions C09_header_lookahead.
+
+Theorem C09_clause_lookahead : forall fuel k st lr v r,
+  K fuel lr v -> aruns (next_clause fuel k st lr) v r ->
+  exists res st' lr' v', r = ADone ((res, st'), lr') v' /\ vS v' = vS v /\ vcur v <= vcur v' /\ Lk v v' /\
+    match res with
+    | Ok (Some _) => K fuel lr' v' /\ vcur v < vcur v' /\ ItemLk v v'
+    | _ => True
+    end.
+Proof. exact next_clause_lookahead. Qed.
+Print Assumptions C09_clause_lookahead.
+
+(* what the two relations say *)
+Theorem C09_lookahead_unfolded : forall v v',
+  (ItemLk v v' <->
+   (vcur v < vcur v' /\ nnth (vS v) (vcur v' - 1) = Some 10 /\ vreq v' <= N.max (vreq v) (vcur v')) \/
+   (vcur v' = nlen (vS v) /\ vreq v' <= N.max (vreq v) (nlen (vS v) + 1))) /\
+  (Lk v v' <-> exists e, vreq v' <= N.max (vreq v) (e + 1) /\ nolf (vS v) (vcur v') e /\ e <= nlen (vS v)).
+Proof. intros v v'. split; reflexivity. Qed.
+Print Assumptions C09_lookahead_unfolded.
+
+(* Concrete reader, a source that hands out one line (or a piece of a line) per read (LineSrc), any chunk size: when
+   an item is returned everything the source has delivered has been consumed — no read was issued after the read
+   that delivered the end of the item's line.  Session = Rel (simulation relation) + K + "delivered data does not
+   extend beyond the line of the last requested byte"; it holds initially (Session_init) and is re-established. *)
+Theorem C09_clause_line_by_line : forall fuel k st lr s v item st' lr' s',
+  Session fuel lr s v -> crun (next_clause fuel k st lr) s = CDone ((Ok (Some item), st'), lr') s' ->
+  exists v', aruns (next_clause fuel k st lr) v (ADone ((Ok (Some item), st'), lr') v') /\
+             Session fuel lr' s' v' /\ framer v v' /\ ItemLk v v' /\
+             valid_len s' = 0 /\ nlen (g_delivered s') = vcur v'.
+Proof. exact next_clause_line_by_line. Qed.
+Print Assumptions C09_clause_line_by_line.
+
+Theorem C09_header_line_by_line : forall fuel k maxd ignore_header lr s v st lr' s',
+  Session fuel lr s v -> crun (parser_new fuel k maxd ignore_header lr) s = CDone (Ok st, lr') s' ->
+  exists v', aruns (parser_new fuel k maxd ignore_header lr) v (ADone (Ok st, lr') v') /\
+             Session fuel lr' s' v' /\ framer v v' /\
+             (phdr st <> None -> ItemLk v v' /\ valid_len s' = 0 /\ nlen (g_delivered s') = vcur v').
+Proof. exact parser_new_line_by_line. Qed.
+Print Assumptions C09_header_line_by_line.
+
+Theorem C09_session_initially : forall fuel (sr : source) (c : N),
+  NoLie (events sr) -> LineSrc sr -> 1 <= c ->
+  Forall (fun b => b < 256) (fst (stream_of sr)) -> nlen (fst (stream_of sr)) < 2 ^ 62 -> (length (fst (stream_of sr)) < fuel)%nat ->
+  Session fuel lrs_init (set_chunk (reader_init sr) c) (view_init (fst (stream_of sr)) (snd (stream_of sr))).
+Proof. exact Session_init. Qed.
+Print Assumptions C09_session_initially.
+
+(* Any honest source at all: if everything the call asks for had already been delivered when it began, the call does
+   not touch the source *)
+Theorem C09_clause_no_read_when_delivered : forall fuel k st lr s v item st' lr' s',
+  Rel s v -> K fuel lr v -> crun (next_clause fuel k st lr) s = CDone ((Ok (Some item), st'), lr') s' ->
+  exists v', aruns (next_clause fuel k st lr) v (ADone ((Ok (Some item), st'), lr') v') /\ Rel s' v' /\ K fuel lr' v' /\
+             ItemLk v v' /\
+             (vreq v' <= nlen (g_delivered s) -> g_delivered s' = g_delivered s /\ src s' = src s).
+Proof. exact next_clause_no_read_when_delivered. Qed.
+Print Assumptions C09_clause_no_read_when_delivered.
